@@ -70,6 +70,13 @@ InsertFails(f, nm) ==
   /\ hist' = Append(hist, [op |-> "fail", v |-> f, res |-> "err", nm |-> nm])
   /\ UNCHANGED <<kind, phase, out>>
 
+(* the builders are Clone (a half-filled builder used as a template): the application goes on with the copy.  A copy is the same  *)
+(* builder - no state of the model changes; the step exists so that the replay clones at every position of a history            *)
+CloneBuilder ==
+  /\ phase = "open" /\ Len(hist) < MaxOps /\ hist # <<>> /\ hist[Len(hist)].op # "clone"
+  /\ hist' = Append(hist, [op |-> "clone", v |-> "none", res |-> "ok", nm |-> "fresh"])
+  /\ UNCHANGED <<kind, items, buf, attempted, phase, out>>
+
 (* core/src/params.rs:110-126 *)
 Build ==
   /\ phase = "open"
@@ -79,6 +86,7 @@ Build ==
 
 Next == \/ \E v \in VClass, nm \in {"fresh", "again"} : Insert(v, nm)
         \/ \E f \in FClass, nm \in {"fresh", "again"} : InsertFails(f, nm)
+        \/ CloneBuilder
         \/ Build
 
 Spec == Init /\ [][Next]_vars
@@ -99,7 +107,7 @@ Inv_BuildMeansInserted ==
 Inv_EmptyMeansNoParams == phase = "built" /\ kind # "ctor" /\ ~attempted => out = None
 Inv_FailedInsertKeepsItems ==   \* action property as a state predicate over hist: #ok inserts = Len(items) unless junk
   kind # "ctor" /\ buf # "junk" =>
-      Len(items) = Len(SelectSeq(hist, LAMBDA h : h.res = "ok"))
+      Len(items) = Len(SelectSeq(hist, LAMBDA h : h.res = "ok" /\ h.op # "clone"))
 
 Emit == (EmitCases /\ phase = "built") =>
           PrintT(<<"REPLAY", ToJson([kind |-> kind, ops |-> hist, expect |-> Expected])>>)
